@@ -46,6 +46,7 @@ from pyttb.pyttb_utils import (
     to_memory_order,
     tt_dimscheck,
     tt_ind2sub,
+    tt_index_to_int,
     tt_sub2ind,
     tt_subsubsref,
 )
@@ -2091,6 +2092,7 @@ class tensor:
         >>> T[1, 1, 2:3] = 1
         >>> T[1, 1, 4] = 1
         """
+        key = tt_index_to_int(key)
         access_type = get_index_variant(key)
 
         # Case 1: Rectangular Subtensor
@@ -2249,6 +2251,7 @@ class tensor:
         >>> T[[0, 1, 2]]  # extracts the first three linearized indices
         array([1., 1., 1.])
         """
+        item = tt_index_to_int(item)
         # Case 0: Single Index Linear
         if isinstance(item, (int, float, np.generic, slice)):
             if isinstance(item, (int, float, np.generic)):
